@@ -156,7 +156,9 @@ func stmtKey(src string) string {
 	f, err := parser.ParseFile(fset, "", "package p\nfunc _() {\n"+src+"\n}", parser.SkipObjectResolution)
 	if err == nil && len(f.Decls) == 1 {
 		ast.Inspect(f, func(n ast.Node) bool {
-			if be, ok := n.(*ast.BinaryExpr); ok && (be.Op == token.EQL || be.Op == token.NEQ) {
+			// (also + and *: the key only identifies a statement inside one
+			// function, it is not used to reason about it)
+			if be, ok := n.(*ast.BinaryExpr); ok && (be.Op == token.EQL || be.Op == token.NEQ || be.Op == token.ADD || be.Op == token.MUL) {
 				if types.ExprString(be.X) > types.ExprString(be.Y) {
 					be.X, be.Y = be.Y, be.X
 				}
